@@ -82,8 +82,7 @@ PROPS = {
         rule="case = group size 2-6 (thorough occasionally 7-12), threshold 1..n, polynomial kinds (library-random, deterministic, small, near-N, shared), "
              "CreationPeriod 4-12, a schedule (permutation of submissions per round + block boundaries) and per-member deviations: round 1 (bad A0 / one-time "
              "proof, short/long commitments, replay, wrong member id, mismatch, negated commitments, stop), round 2 (flipped / other scalar / +n / wrong nonce / "
-             "wrong key / swapped / short / long shares, stop), round 3 (false, mixed, bad key-sym, bad signature, non-member, self, impersonated complaints, bad "
-             "confirm, stop), duplicates, out-of-round and non-member messages; non-trivial = >=1 deviation applied AND rounds 1,2,3 all reached; "
+             "wrong key / swapped / short / long shares, stop), round 3 (false, mixed, bad key-sym, bad signature, non-member, self, impersonated complaints, one MsgComplain mixing the sender's own complaint with an entry naming ANOTHER member as complainant at position 1 or later, bad confirm, stop), duplicates, out-of-round and non-member messages; non-trivial = >=1 deviation applied AND rounds 1,2,3 all reached; "
              "distinct = hash of case JSON",
         explanation="honest members are driven by the daemon's own round-3 code (cylinder hook) on the group state read through the chain's querier; the harness "
                     "knows every polynomial and decides share consistency with math/big: ACTIVE => group key == sum of constant-term commitments == (sum a_j0)G, "
@@ -97,8 +96,7 @@ PROPS = {
     "C05": dict(
         stages=[dict(test="TestC05", quick=(16, 30), thorough=(16, 2000), timeout=dict(quick=900, thorough=3300))],
         rule="case = group (n 2-6, threshold, MaxDESize 3-8, SigningPeriod 1-4, MaxSigningAttempt 1-4, fee) + 10-60 late-bound ops "
-             "(submit DEs / reset / signing request direct or via oracle result / partial signatures / activate / end block, plus a "
-             "constructed request-partial-timeout-retry sequence) on the real app; non-trivial = >=1 retry after time-out AND >=1 failed "
+             "(submit DEs / reset / signing request direct or via oracle result / partial signatures / activate / governance changes of MaxDESize, MaxSigningAttempt, FeePerSigner / end block, plus a constructed request-partial-timeout-retry sequence; a refused request is classified by its error: 'DE not found' is a violation, 'insufficient signers' only with fewer than threshold eligible members) on the real app; non-trivial = >=1 retry after time-out AND >=1 failed "
              "(rejected / rolled back) signing creation AND >=1 reset while a signing is pending; distinct = hash of case JSON",
         explanation="history invariant with a FIFO model per member: every assignment seen in request_signature events must be the "
                     "member's oldest queued pair, never assigned before, registered by that member, member active and queue non-empty; "
@@ -198,8 +196,7 @@ PROPS = {
     ),
     "C17": dict(
         stages=[dict(test="TestC17", pkg="c17", quick=(16, 25), thorough=(16, 2500), timeout=dict(quick=900, thorough=3300))],
-        rule="case = tunnel params (multi-denom MinDeposit, base fee), 3 accounts, 20-60 late-bound ops (create/deposit/withdraw/activate/"
-             "deactivate/trigger/fund/end block) on 1-3 tunnels with amounts placed around the minimum, own deposit and balance; non-trivial = "
+        rule="case = tunnel params (multi-denom MinDeposit, base fee), 3 accounts, 20-60 late-bound ops (create/deposit/withdraw/activate/deactivate/trigger/fund/MsgUpdateSignalsAndInterval by creator or stranger on active and inactive tunnels with in-range, boundary and just-out-of-range configs/end block) on 1-3 tunnels with amounts placed around the minimum, own deposit and balance; non-trivial = "
              ">=2 simultaneous depositors on one tunnel AND >=1 successful withdrawal crossing the minimum; distinct = hash of case JSON",
         explanation="reference ledger advanced only by successful txs; after every block: TotalDeposit == sum of deposit records == ledger, "
                     "module balance == deposits + recorded fees, exact balance deltas, no overdraw, activation only by creator with total >= min, "
@@ -213,7 +210,7 @@ PROPS = {
                 dict(test="TestC06Chain", pkg="c06", quick=(16, 10), thorough=(16, 500), timeout=dict(quick=900, thorough=3400))],
         rule="Pure: lists of 0-40 validator prices (powers 1/small/equal/dominant >25% and >50%/near 2^63, timestamps with ties, prices 0/1/2^64-1, all "
              "statuses) with quorum power at total+{-1,0,1} and exact half-power crossings constructed. Chain: 3-7 validators bonded/unbonded/oracle-"
-             "active or not submitting prices with drawn timestamps/statuses, block times around the feed interval. Non-trivial = >=3 AVAILABLE entries "
+             "active or not submitting prices with drawn timestamps/statuses, block times around the feed interval, feeds parameter changes through real governance proposals (MaxInterval lowered below stored feed intervals with report ages placed in (MaxInterval, interval], MinInterval, PowerStepThreshold, MaxCurrentFeeds, CooldownTime, GracePeriod). Non-trivial = >=3 AVAILABLE entries "
              "with a timestamp tie or a section boundary inside one entry's power, or a status comparison at/next to equality; distinct = hash of case JSON",
         explanation="reference over big.Rat written from x/feeds/README.md and the statement (filter AVAILABLE, stable sort time desc/power desc, sections "
                     "1/32,1/16,1/8,1/4 with multipliers 6,4,2,1.1,1 split across boundaries, lower weighted median; status rule on quorum/half): "
@@ -272,7 +269,7 @@ PROPS = {
         stages=[dict(test="TestC18", pkg="c18", quick=(16, 14), thorough=(16, 1200), timeout=dict(quick=900, thorough=3400))],
         rule="case = genesis current group or none, small Min/MaxTransitionDuration, CreationPeriod 4-9, SigningPeriod 1-3, MaxSigningAttempt 1-3 and "
              "late-bound ops: gov MsgTransitionGroup / MsgForceTransitionGroup with exec times at min / max / just outside the window / not after block "
-             "time, a second proposal while one is pending, DKG steps of the incoming group (honest, member stops, false complaint), hand-over "
+             "time, a second proposal while one is pending, forced transitions naming a group that is not ACTIVE (left-over DKG group of a dropped transition in ROUND_1/2/3, stalled, fallen, expired, non-existent), DKG steps of the incoming group (honest, member stops, false complaint), hand-over "
              "signing by all/some/none of the current group, block ends with dt crossing ExecTime before/at/after each milestone, member activation, "
              "user signing requests at every stage; non-trivial = a transition reached WAITING_SIGN or WAITING_EXECUTION and >=1 milestone lies within "
              "one block of the first block at/after ExecTime; distinct = hash of case JSON",
